@@ -53,7 +53,7 @@ class TierModel:
             col = [m for m in self.entries if m[1] > s and m[0] < e]
             new = (s, e, lab)
         else:
-            col = [m for m in self.entries if m[0] == s][:1]
+            col = [m for m in self.entries if m[0] == s]  # every point at that time collides
             new = (s, lab)
         if col and mode == "error":
             return "CollisionError", before
@@ -78,7 +78,7 @@ class TierModel:
                 for o in orders:
                     alts.append(rest + [(lo, hi, "-".join(m[2] for m in o))])
             else:
-                alts.append(rest + [(s, col[0][1] + "-" + lab)])
+                alts.append(rest + [(s, "-".join([m[1] for m in col] + [lab]))])  # old (in tier order) then new
         lo2 = min(self.lo, s)
         hi2 = max(self.hi, e)
         return OK, [(sorted(a), lo2, hi2) for a in alts]
